@@ -243,6 +243,14 @@ def real_apply(arr, op, base, scratch):
     if t == "mask":
         return arr[np.array(op[1], dtype=bool)]
     if t == "take":
+        if op[2]:
+            # the fill value for "missing" in every spelling a caller may use
+            import math
+            spell = [None, np.nan, float("nan"), math.nan, np.float64("nan"), np.float32("nan"), arr.dtype.na_value, "omitted"]
+            fv = spell[(len(op[1]) + sum(abs(int(v)) for v in op[1])) % len(spell)]
+            if fv == "omitted":
+                return arr.take(list(op[1]), allow_fill=True)
+            return arr.take(list(op[1]), allow_fill=True, fill_value=fv)
         return arr.take(list(op[1]), allow_fill=op[2])
     if t == "getitem_list":
         return arr[list(op[1])] if len(op[1]) else arr[[]]
